@@ -501,7 +501,7 @@ def _array(e, st, node, x, dtype=None, copy=None):
         kind = kind_of_dtype(dtype, a.kind)
         if kind != a.kind:
             return e.new_obj(st, e.lam(lambda *ix: e.num(a[tuple(ix)], kind), a.shape, kind))
-        meta = {k: v for k, v in a.meta.items() if k != 'list'}
+        meta = {k: v for k, v in a.meta.items() if k not in ('list', 'view_of')}
         if node.func.attr == 'asarray' and not a.meta.get('list') and isinstance(x, Ref):
             return x       # asarray of an ndarray is the same object
         return e.new_obj(st, Arr(a.term, a.shape, a.kind, a.init, meta))
